@@ -416,20 +416,20 @@ def _range_text(r):
 
 
 def _too_big(text):
+    """keep generated expansions small: __hash__ is 3**port (slow for long digit runs) and every member is rendered"""
+    import re
+    if len(text) > 80 or re.search(r"\d{6}", text):
+        return True
     for part in text.split(","):
         pc = part.split("-")
         if len(pc) == 2:
             d = "".join(ch for ch in pc[1] if ch.isdigit())
-            if d and int(d) > 400:
-                lo = "".join(ch for ch in pc[0] if ch.isdigit())
-                # a large end is fine when the start is close to it
-                try:
-                    from_ = int(lo[-len(d):]) if lo else 0
-                except ValueError:
-                    from_ = 0
-                if int(d) - from_ > 400 or int(d) > 10 ** 9:
+            if d:
+                runs = re.findall(r"\d+", pc[0])
+                lo = int(runs[-1]) if runs else 0
+                if int(d) > 12000 or int(d) - lo > 400:
                     return True
-    return len(text) > 80
+    return False
 
 
 RALPHA = ["Eth", "1", "3", "/", ",", "-", ".", ":", " ", "m"]
